@@ -468,6 +468,10 @@ func ruleWaitChain(w *World, r *Report, pfx string) {
 		switch {
 		case given && iU < 0:
 			bad = orStr(bad, "Wait returns without waiting for the wait group given with WithWaitGroup")
+		case given && iS >= 0 && iU < iS:
+			// the goroutines of that group may themselves wait for the shutdown (the shutdown notifier is
+			// served by the container's end): waiting for them first never returns
+			bad = orStr(bad, "Wait waits for the user's wait group before the container has been shut down")
 		case !given && !none:
 			bad = orStr(bad, "Wait does not look at the user's wait group")
 		}
